@@ -28,7 +28,9 @@ RULE = (
     "distinct by content hash"
 )
 PARTIAL = [
-    "pandas' CSV parser and its conversion of column labels are trusted (the model starts from the parsed header classes)",
+    "pandas' CSV parser and the conversion of ONE column label to an integer are trusted (the model starts from the parsed "
+    "header classes); the label RULE (all integers -> labels, else np.arange fallback; dense iff complete) is re-read from "
+    "FDApy/misc/loader.py by the translator and proved equal to the model; write∘read = identity is proved on the model",
     "basis families are taken from the implementation as exact values of the float arrays (their analytic form is C18's)",
     "to_basis∘to_grid = P-spline smoothing and exact recovery: proved over an abstract basis matrix / normal equations, "
     "tied to PSplines differentially (the B-spline/P-spline model itself is C05/C18's)",
@@ -38,6 +40,154 @@ PARTIAL = [
 TRUSTED_EXTRA = ["pandas.read_csv / DataFrame.to_csv round trip of decimal literals"]
 
 FAMILIES = ["fourier", "legendre", "wiener", "bsplines", "given"]
+
+
+# --------------------------------------------------------------------------
+# translator: the header rule of read_csv, read off FDApy/misc/loader.py
+# --------------------------------------------------------------------------
+
+import ast  # noqa: E402
+
+import common  # noqa: E402
+
+GEN_FILE = os.path.join(common.LEAN_DIR, "FDAModel", "Generated", "CsvRule.lean")
+TRANSLATOR_NOTE = []
+
+
+class _NotRecognised(Exception):
+    pass
+
+
+def _calls(node, attr):
+    return [n for n in ast.walk(node) if isinstance(n, ast.Call) and
+            ((isinstance(n.func, ast.Attribute) and n.func.attr == attr) or (isinstance(n.func, ast.Name) and n.func.id == attr))]
+
+
+def _int_literal(node):
+    if isinstance(node, ast.Constant) and isinstance(node.value, int) and not isinstance(node.value, bool):
+        return node.value
+    if isinstance(node, ast.UnaryOp) and isinstance(node.op, ast.USub) and isinstance(node.operand, ast.Constant):
+        return -node.operand.value
+    raise _NotRecognised("non-literal argument of arange")
+
+
+def parse_csv_rule(path):
+    """(integer_labels, start, step, dense_when_complete) of `read_csv`, from the source.
+
+    Recognised shape (wherever it sits in the module, inline or in a helper): a `try` whose body converts
+    the column labels with `.astype(<int64|int>)`, an `except ValueError` handler that builds
+    `arange([start,] n[, step])` with literal start/step; and one `if` on `….isna()….any()` (possibly
+    negated or through one variable) choosing between a `*dense*` and an `*irregular*` callee."""
+    tree = ast.parse(open(path).read())
+    rule = None
+    for t in [n for n in ast.walk(tree) if isinstance(n, ast.Try)]:
+        conv = [c for stmt in t.body for c in _calls(stmt, "astype")]
+        if not conv:
+            continue
+        arg = ast.unparse(conv[0].args[0]) if conv[0].args else ""
+        if arg.replace("np.", "").replace("numpy.", "").strip("\"'") not in ("int64", "int", "int_", "intp"):
+            raise _NotRecognised(f"labels converted with astype({arg})")
+        hs = [h for h in t.handlers if h.type is not None and "ValueError" in ast.unparse(h.type)]
+        if len(hs) != 1 or len(t.handlers) != 1:
+            raise _NotRecognised("fallback is not a single `except ValueError`")
+        ar = [c for stmt in hs[0].body for c in _calls(stmt, "arange")]
+        if len(ar) != 1 or ar[0].keywords:
+            raise _NotRecognised("fallback is not one positional np.arange(...)")
+        a = ar[0].args
+        if len(a) == 1:
+            start, step = 0, 1
+        elif len(a) == 2:
+            start, step = _int_literal(a[0]), 1
+        elif len(a) == 3:
+            start, step = _int_literal(a[0]), _int_literal(a[2])
+        else:
+            raise _NotRecognised("np.arange arity")
+        if "len(" not in ast.unparse(a[0] if len(a) == 1 else a[1]):
+            raise _NotRecognised("fallback length is not len(columns)")
+        if rule is not None:
+            raise _NotRecognised("two label-conversion blocks")
+        rule = (True, start, step)
+    if rule is None:
+        raise _NotRecognised("no try/astype block")
+    # dense iff complete
+    isna_vars = set()
+    for n in ast.walk(tree):
+        if isinstance(n, ast.Assign) and "isna()" in ast.unparse(n.value) and "any()" in ast.unparse(n.value):
+            if "not " in ast.unparse(n.value):
+                raise _NotRecognised("negated missing-value flag")
+            isna_vars |= {t_.id for t_ in n.targets if isinstance(t_, ast.Name)}
+    dense_when_complete = None
+    for n in ast.walk(tree):
+        if not isinstance(n, ast.If):
+            continue
+        test, neg = n.test, False
+        if isinstance(test, ast.UnaryOp) and isinstance(test.op, ast.Not):
+            test, neg = test.operand, True
+        src = ast.unparse(test)
+        if not (("isna()" in src and "any()" in src) or (isinstance(test, ast.Name) and test.id in isna_vars)):
+            continue
+        body = " ".join(ast.unparse(x) for x in n.body)
+        if ("dense" in body) == ("irregular" in body):
+            raise _NotRecognised("branch callee not recognised")
+        val = ("dense" in body) if neg else ("irregular" in body)
+        if dense_when_complete is not None and dense_when_complete != val:
+            raise _NotRecognised("two inconsistent missing-value branches")
+        dense_when_complete = val
+    if dense_when_complete is None:
+        raise _NotRecognised("no missing-value branch")
+    return rule + (dense_when_complete,)
+
+
+def csv_rule_lean(rule):
+    _, start, step, dwc = rule
+    return f"""/-
+GENERATED by harness/c14.py `translate()` from FDApy/misc/loader.py (`read_csv`: label rule).
+Do not edit: regenerated on every run of `./check C14`.
+-/
+import FDAModel.Tabular
+
+namespace FDA.Generated.CsvRule
+open FDA.Tab
+
+/-- `np.arange(start, len(columns), step)` of the `except ValueError` fallback. -/
+def fallbackStart : Int := {start}
+def fallbackStep : Int := {step}
+
+/-- The abscissae as the SOURCE computes them: the labels when all convert to integers,
+otherwise the fallback range. -/
+def abscissae (hs : List Header) : List Int :=
+  match hs.mapM Header.toInt? with
+  | some zs => zs
+  | none => (List.range hs.length).map fun (j : Nat) => fallbackStart + fallbackStep * Int.ofNat j
+
+/-- The source loads a table without missing cell as dense data (and irregular otherwise). -/
+def denseWhenComplete : Bool := {"true" if dwc else "false"}
+
+end FDA.Generated.CsvRule
+"""
+
+
+def translate():
+    del TRANSLATOR_NOTE[:]
+    path = os.path.join(common.REPO, "FDApy", "misc", "loader.py")
+    try:
+        src = csv_rule_lean(parse_csv_rule(path))
+    except (_NotRecognised, SyntaxError, OSError) as e:
+        # an unrecognised source shape is not an alarm: keep the last generated file
+        TRANSLATOR_NOTE.append(f"translator: source shape not recognised ({e}), tie rests on the correspondence only")
+        if os.path.exists(GEN_FILE):
+            return
+        src = csv_rule_lean((True, 0, 1, True))
+        TRANSLATOR_NOTE.append("translator: no previous generated file, the model's own rule was written")
+    old = open(GEN_FILE).read() if os.path.exists(GEN_FILE) else None
+    if old != src:
+        os.makedirs(os.path.dirname(GEN_FILE), exist_ok=True)
+        with open(GEN_FILE, "w") as fh:
+            fh.write(src)
+
+
+def extra_coverage(cases, impls, models):
+    return dict(translator=list(TRANSLATOR_NOTE) or ["translator: read_csv label rule regenerated from FDApy/misc/loader.py and proved equal to the model (C14.read_csv_rule_matches_source)"])
 
 
 # --------------------------------------------------------------------------
